@@ -532,6 +532,7 @@ package webdav
 //@   ensures E2: doCalls == old(doCalls) + 1 && (lastErr(c.ic) != nil || lastStatus(c.ic) != 207) ==> fi == nil && err != nil && (lastErr(c.ic) == nil && lastStatus(c.ic) / 100 != 2 ==> httpCode(err) == lastStatus(c.ic))
 //@   ensures E3: doCalls == old(doCalls) || doCalls == old(doCalls) + 1
 //@   ensures E4: err == nil ==> fi != nil && lastStatus(c.ic) == 207
+//@   ensures E5: err == nil ==> (let d : decoded(xmlDecoderOf(doResp(c.ic.http, lastReq).Body), "internal.MultiStatus") in len(d.Responses) == 1 && !respFailedV(d.Responses[0]) && len(d.Responses[0].Hrefs) == 1 && fi.Path == d.Responses[0].Hrefs[0].Path)
 //@ func webdav.(*Client).ReadDir(c, ctx, name, recursive) (l, err)
 //@   requires R1: wclientOK(c)
 //@   allocates
@@ -554,3 +555,5 @@ package webdav
 //@   ensures E1: doCalls == old(doCalls) ==> err != nil
 //@   ensures E2: doCalls == old(doCalls) + 1 && (lastErr(c.ic) != nil || lastStatus(c.ic) != 207) ==> err != nil && (lastErr(c.ic) == nil && lastStatus(c.ic) / 100 != 2 ==> httpCode(err) == lastStatus(c.ic))
 //@   ensures E3: err != nil ==> p == ""
+//@   -- success means the single response did not fail (a failed response or a failed property is an error, never data)
+//@   ensures H2: err == nil ==> (let d : decoded(xmlDecoderOf(doResp(c.ic.http, lastReq).Body), "internal.MultiStatus") in len(d.Responses) == 1 && !respFailedV(d.Responses[0]))
